@@ -181,6 +181,7 @@ pub struct ProcResult {
     pub switches: u64,
     pub now: u64,
     pub time_jumps: u64,
+    pub time_warps: u64,
     pub max_tasks: u32,
     pub hook_sets: u32,
     pub hook_calls: u32,
@@ -288,6 +289,7 @@ where
             (Some(StopReason::StepCap), _) => Status::Livelock,
             (Some(StopReason::PanicUnwindAtSyncPoint), _) => Status::PanicNoExit,
             (Some(StopReason::ReplayDiverged), _) => Status::ReplayDiverged,
+            (Some(StopReason::Deadlock), _) => Status::Wedged("every remaining task waits for ever (condvar / park / recv without a wake-up)".into()),
             (None, Ok(())) => Status::Completed,
             (None, Err(_)) => Status::MainPanic("engine failure (unclassified panic out of the run)".into()),
         }
@@ -304,6 +306,7 @@ where
         switches: st.switches,
         now: st.now,
         time_jumps: st.time_jumps,
+        time_warps: st.time_warps,
         max_tasks: st.max_tasks,
         hook_sets: st.hook_sets,
         hook_calls: st.hook_calls,
